@@ -332,6 +332,17 @@ def cloneQueries (s : GenSt) (a b : String) (tag : Nat) : GenSt :=
     #[s!"slice {a} {v} g{tag} -", s!"observe g{tag}", s!"slice {b} {v} g{tag + 1} -", s!"observe g{tag + 1}", s!"same g{tag} g{tag + 1}"])
   { s with lines := s.lines ++ ls ++ sl ++ #[s!"snap {a}", s!"snap {b}", s!"samesnap {a} {b}"] }
 
+/-- `groups` groups of two (ids 2i, 2i+1), some with an unread datum: with 14 of them every group slot is in use -/
+def GenSt.groupsOfTwo (s : GenSt) (groups : Nat) : GenSt :=
+  (List.range groups).foldl (fun (s : GenSt) i =>
+    let (rng, c) := s.rng.below 3
+    let s := { s with rng := rng }
+    let ops : List Op := [.add (2 * i), .add (2 * i + 1), .bind (2 * i) (2 * i + 1) (.alpha 0)] ++
+      (if c = 0 then [] else [.put (2 * i + 1) (Hx.Hex.ofBytes [UInt8.ofNat i])])
+    match s.tryOps ops with
+    | some s' => s'
+    | none => s) s
+
 def genFork (rng : Rng) (len : Nat) : Rng × Array String :=
   let (rng, n, cap) := pickConfig rng
   -- where the clone is taken: after a random prefix; after everything was read (often an empty graph whose
@@ -371,6 +382,11 @@ def genFork (rng : Rng) (len : Nat) : Rng × Array String :=
   let s := { s with rng := rng }
   let s := if pre = 0 then { s with lines := s.lines.push s!"new g1 {s.n} {s.cap}" }
     else if pre = 1 then { s with lines := s.lines.push s!"new g1 {s.n} {s.cap + 3}" }
+    else if pre = 2 then
+      -- the target is an earlier clone of the same graph, which has moved on since (other data unread, other
+      -- groups alive): everything the target had must be replaced
+      let s := { s with lines := s.lines.push "clone g0 g1" }
+      (List.range 8).foldl (fun s _ => s.stepRandom profGc) s
     else s
   let s := { s with lines := s.lines.push "clone g0 g1" }
   let s := cloneQueries s "g0" "g1" 2
@@ -380,11 +396,16 @@ def genFork (rng : Rng) (len : Nat) : Rng × Array String :=
 def genSer (rng : Rng) (len : Nat) (cutStep : Nat) : Rng × Array String :=
   let (rng, n) := rng.pick [1, 2, 4, 16]
   let (rng, cap) := rng.pick [3, 5, 8, 12, 20, 33, 64]
+  -- one history in six starts with 13 or 14 groups alive (every group slot in use at save time)
+  let (rng, mg) := rng.below 6
+  let (rng, groups) := rng.pick [13, 14, 14]
+  let cap := if mg = 0 then 2 * groups + 4 else cap
   let s := GenSt.start rng n cap
+  let s := if mg = 0 then s.groupsOfTwo groups else s
   let (rng, k) := s.rng.below 2
   let s := { s with rng := rng }
   let p := if k = 0 then profRw else profGc
-  let s := (List.range (len / 2)).foldl (fun s _ => s.stepRandom p) s
+  let s := (List.range (if mg = 0 then len / 8 else len / 2)).foldl (fun s _ => s.stepRandom p) s
   let (rng, dg) := s.rng.below 2
   let s := { s with rng := rng }
   let s := if dg = 0 then s.dangling else s
@@ -584,7 +605,12 @@ def profRender : Prof := { wBind := 30, wAdd := 10, wPut := 10, wDataUnread := 8
 def genRender (rng : Rng) (len : Nat) : Rng × Array String :=
   let (rng, n) := rng.pick [2, 3, 4, 8, 16]
   let (rng, cap) := rng.pick [3, 5, 8, 12, 20]
+  -- one history in six starts with 13 or 14 groups alive (every group slot in use)
+  let (rng, mg) := rng.below 6
+  let (rng, groups) := rng.pick [13, 14, 14]
+  let cap := if mg = 0 then 2 * groups + 4 else cap
   let s := GenSt.start rng n cap
+  let s := if mg = 0 then s.groupsOfTwo groups else s
   let s := (List.range (len / 2)).foldl (fun s _ => s.stepRandom profRender) s
   let (rng, dg) := s.rng.below 3
   let s := { s with rng := rng }
